@@ -34,7 +34,7 @@ COVER = {
     "discopy.cat:Arrow.then": 0.7,
     "discopy.cat:Arrow.__getitem__": 0.8,
     "discopy.rewriting:interchange": 0.8,
-    "discopy.rewriting:snake_removal.unsnake": 0.5,
+    "discopy.rewriting:snake_removal.unsnake": 0.15,
     "discopy.monoidal:Diagram.subclass.upgrade": 0.9,
 }
 MIN_EVALS = {"quick": {"returned-diagram-well-typed": 20000,
